@@ -20,7 +20,8 @@ pub struct Edit {
 #[derive(Clone, Debug, Serialize, Deserialize, PartialEq)]
 pub struct Step {
     pub edits: Vec<Edit>,
-    /// 0 exact, 1 coarsened, 2 extra marks, 3 `true`, 4 coarsened + extra, 5 splice-shaped (single array edit; else exact)
+    /// 0 exact, 1 coarsened, 2 extra marks, 3 `true`, 4 coarsened + extra, 5 splice-shaped, covering (single array edit; else exact),
+    /// 6 splice-shaped exactly as `tmpl/index.ts` builds it (only for templates reading the array through `wx:for` alone)
     pub tree_style: u8,
     pub coarsen: Vec<(u32, u32)>,
     pub extra: Vec<Vec<u8>>,
@@ -41,6 +42,11 @@ pub fn step() -> BoxedStrategy<Step> {
     )
         .prop_map(|(edits, tree_style, coarsen, extra)| Step { edits, tree_style, coarsen, extra })
         .boxed()
+}
+
+/// Steps for templates that read their arrays through `wx:for` only: mostly one edit, mostly the `index.ts` splice tree.
+pub fn step_splice() -> BoxedStrategy<Step> {
+    (proptest::collection::vec(edit(), 1..3), prop_oneof![5 => Just(6u8), 2 => Just(5u8), 1 => Just(0u8)]).prop_map(|(edits, tree_style)| Step { edits, tree_style, coarsen: vec![], extra: vec![] }).boxed()
 }
 
 pub type Path = Vec<String>;
@@ -399,7 +405,7 @@ pub fn apply_step(prev: &JsVal, s: &Step) -> Applied {
         tree.mark(p);
     }
     let mut style = s.tree_style;
-    if style == 5 {
+    if style == 5 || style == 6 {
         // the production shape of `spliceArrayDataOnPath`: one contiguous change of one array, everything else equal
         let sp = splice_of(prev, &d, &dp);
         match sp {
@@ -410,10 +416,10 @@ pub fn apply_step(prev: &JsVal, s: &Step) -> Applied {
                     (Some(JsVal::Arr(a)), Some(JsVal::Arr(b))) => (a.clone(), b.clone()),
                     _ => (vec![], vec![]),
                 };
-                let marks: Vec<usize> = (start..new.len().max(old.len())).filter(|i| old.get(*i) != new.get(*i)).collect();
+                let marks: Vec<usize> = if style == 6 { vec![] } else { (start..new.len().max(old.len())).filter(|i| old.get(*i) != new.get(*i)).collect() };
                 let mut t = Tree::empty();
-                set_at(&mut t, &path, Tree::Splice { start, del, ins, marks, length: old.len() != new.len() });
-                labels.push("tree:splice".into());
+                set_at(&mut t, &path, Tree::Splice { start, del, ins, marks, length: style == 5 && old.len() != new.len() });
+                labels.push(if style == 6 { "tree:splice-exact" } else { "tree:splice" }.into());
                 return Applied { data: d, tree: t, labels, diff: dp };
             }
             None => style = 0,
